@@ -24,6 +24,17 @@ pub struct ReplayFile {
     pub expect_digest: String,
     pub expect_detail: String,
     pub found: Value,
+    /// runs executed (results ignored) before `spec` in the same process: only
+    /// present when the violation depends on state that an earlier run left
+    /// behind in the process (a cache, a static) — i.e. on the call history
+    #[serde(default)]
+    pub prefix: Vec<Value>,
+    #[serde(default = "yes")]
+    pub reproducible: bool,
+}
+
+fn yes() -> bool {
+    true
 }
 
 #[derive(Serialize, Deserialize, Clone, Debug, Default)]
@@ -37,6 +48,10 @@ pub struct FoundViolation {
     pub run_seed_note: String,
     pub shrink_tried: u32,
     pub shrink_accepted: u32,
+    #[serde(default)]
+    pub history_prefix: usize,
+    #[serde(default = "yes")]
+    pub reproducible: bool,
 }
 
 #[derive(Serialize, Deserialize, Clone, Debug, Default)]
@@ -56,6 +71,11 @@ pub struct WorkerReport {
     pub violation_counts: BTreeMap<String, u64>,
     pub samples: Vec<Value>,
     pub wall_s: f64,
+    #[serde(default)]
+    pub corpus_runs: u64,
+    /// (harvest key, explicit spec) of clean runs that reached a rare condition
+    #[serde(default)]
+    pub candidates: Vec<(String, Value)>,
 }
 
 /// Process warm-up under the global entropy seed `g`: pins whatever is
@@ -103,7 +123,7 @@ pub fn shrink<E: Engine>(env: &Env, spec: E::Spec, v: Violation, budget: u32) ->
     Shrunk { spec: cur, violation: curv, tried, accepted }
 }
 
-pub fn write_replay<E: Engine>(g: u64, spec: &E::Spec, v: &Violation, found: Value) -> Result<String, String> {
+pub fn write_replay<E: Engine>(g: u64, spec: &E::Spec, v: &Violation, found: Value, prefix: &[E::Spec], reproducible: bool) -> Result<String, String> {
     let dir = verif_root().join("replays");
     std::fs::create_dir_all(&dir).map_err(|e| format!("{e}"))?;
     let spec_v = serde_json::to_value(spec).map_err(|e| format!("{e}"))?;
@@ -119,6 +139,8 @@ pub fn write_replay<E: Engine>(g: u64, spec: &E::Spec, v: &Violation, found: Val
         expect_digest: hex(v.digest()),
         expect_detail: v.detail.clone(),
         found,
+        prefix: prefix.iter().map(|p| serde_json::to_value(p).unwrap_or(Value::Null)).collect(),
+        reproducible,
     };
     std::fs::write(&path, serde_json::to_string_pretty(&rf).map_err(|e| format!("{e}"))?).map_err(|e| format!("{e}"))?;
     Ok(path.to_string_lossy().to_string())
@@ -141,6 +163,14 @@ pub fn read_set(path: &Path, into: &mut HashSet<u64>) -> Result<(), String> {
 }
 
 /// One worker process: warm-up under its global seed, then its share of runs.
+/// Corpus of recorded runs (explicit specs) that reached rare conditions on a
+/// clean tree; replayed by every check in addition to the seeded batch.
+pub fn load_corpus(property: &str) -> Vec<Value> {
+    let path = verif_root().join("corpus").join(format!("{property}.jsonl"));
+    let Ok(text) = std::fs::read_to_string(path) else { return vec![] };
+    text.lines().filter_map(|l| serde_json::from_str::<Value>(l).ok()).filter_map(|v| v.get("spec").cloned()).collect()
+}
+
 pub fn worker<E: Engine>(env: &Env, base: u64, p: u64, workers: u64, total: u64, out_prefix: &Path) -> Result<(), String> {
     let t0 = std::time::Instant::now();
     let g = derive(base, "global", p);
@@ -148,11 +178,28 @@ pub fn worker<E: Engine>(env: &Env, base: u64, p: u64, workers: u64, total: u64,
     let mut rep = WorkerReport { engine: E::ID.into(), worker: p, workers, global_seed: g, ..Default::default() };
     let (mut fps, mut shapes, mut contents) = (HashSet::new(), HashSet::new(), HashSet::new());
     let max_shrunk_classes = 6;
+    let mut recent: std::collections::VecDeque<E::Spec> = std::collections::VecDeque::new();
+    let corpus: Vec<E::Spec> = load_corpus(E::PROPERTY).into_iter().filter_map(|v| serde_json::from_value(v).ok()).collect();
+    let mut harvest_seen: std::collections::HashMap<String, u32> = std::collections::HashMap::new();
     let mut i = p;
-    while i < total {
-        let spec = E::plan(env, base, i);
+    while i < total + corpus.len() as u64 {
+        let from_corpus = i >= total;
+        let spec = if from_corpus { corpus[(i - total) as usize].clone() } else { E::plan(env, base, i) };
         let (o, resolved) = E::execute(env, &spec);
         rep.runs += 1;
+        if from_corpus {
+            rep.corpus_runs += 1;
+        }
+        if !from_corpus && o.violation.is_none() && o.discard.is_none() && o.harness_error.is_none() {
+            for k in &o.harvest {
+                let n = harvest_seen.entry(k.clone()).or_insert(0);
+                *n += 1;
+                if *n <= 2 && rep.candidates.len() < 4000 {
+                    let sv = serde_json::to_value(resolved.as_ref().unwrap_or(&spec)).unwrap_or(Value::Null);
+                    rep.candidates.push((k.clone(), sv));
+                }
+            }
+        }
         if let Some(h) = &o.harness_error {
             if rep.harness_errors.len() < 10 {
                 rep.harness_errors.push(format!("run {i}: {h}"));
@@ -182,31 +229,64 @@ pub fn worker<E: Engine>(env: &Env, base: u64, p: u64, workers: u64, total: u64,
             let n = rep.violation_counts.entry(v.class.clone()).or_insert(0);
             *n += 1;
             if *n == 1 && rep.violations.len() < max_shrunk_classes {
-                let start = resolved.unwrap_or(spec);
-                let s = shrink::<E>(env, start, v, 300);
+                let start = resolved.unwrap_or(spec.clone());
+                let s = shrink::<E>(env, start.clone(), v.clone(), 300);
                 // the minimised spec must fail again, identically, before it is reported
                 let (again, _) = E::execute(env, &s.spec);
                 let ok = again.violation.as_ref().is_some_and(|a| a.class == s.violation.class && a.digest() == s.violation.digest());
+                let (mut rspec, mut rviol, mut prefix, mut reproducible) = (s.spec.clone(), s.violation.clone(), Vec::<E::Spec>::new(), true);
                 if !ok {
-                    rep.harness_errors.push(format!(
-                        "run {i}: minimised spec did not reproduce `{}` identically (got {:?})",
-                        s.violation.class,
-                        again.violation.map(|a| a.class)
-                    ));
+                    // The run is not a function of its spec alone: the violation depends on
+                    // state an earlier run left behind in this process. Search the recent
+                    // history for the shortest prefix of runs that brings it back.
+                    reproducible = false;
+                    rspec = start.clone();
+                    rviol = v.clone();
+                    let hist: Vec<E::Spec> = recent.iter().cloned().collect();
+                    'depth: for depth in 1..=hist.len() {
+                        let pre = &hist[hist.len() - depth..];
+                        for attempt in 0..2 {
+                            for ps in pre {
+                                let _ = E::execute(env, ps);
+                            }
+                            let (o, _) = E::execute(env, &start);
+                            match o.violation {
+                                Some(a) if a.class == v.class => {
+                                    if attempt == 0 {
+                                        rviol = a;
+                                    } else if a.digest() == rviol.digest() {
+                                        prefix = pre.to_vec();
+                                        reproducible = true;
+                                        break 'depth;
+                                    }
+                                }
+                                _ => break,
+                            }
+                        }
+                    }
+                    if !reproducible {
+                        prefix = hist;
+                    }
                 }
-                let path = write_replay::<E>(g, &s.spec, &s.violation, json!({"base_seed": base, "run_index": i, "worker": p, "workers": workers, "shrink_tried": s.tried, "shrink_accepted": s.accepted}))?;
+                let path = write_replay::<E>(g, &rspec, &rviol, json!({"base_seed": base, "run_index": i, "worker": p, "workers": workers, "shrink_tried": s.tried, "shrink_accepted": s.accepted}), &prefix, reproducible)?;
                 rep.violations.push(FoundViolation {
                     property: E::PROPERTY.into(),
-                    class: s.violation.class.clone(),
-                    detail: s.violation.detail.clone(),
-                    digest: hex(s.violation.digest()),
+                    class: rviol.class.clone(),
+                    detail: rviol.detail.clone(),
+                    digest: hex(rviol.digest()),
                     replay: path,
                     run_index: i,
                     run_seed_note: format!("base={base} index={i}"),
                     shrink_tried: s.tried,
                     shrink_accepted: s.accepted,
+                    history_prefix: prefix.len(),
+                    reproducible,
                 });
             }
+        }
+        recent.push_back(spec);
+        if recent.len() > 3 {
+            recent.pop_front();
         }
         i += workers;
     }
@@ -251,6 +331,15 @@ pub fn replay<E: Engine>(env: &Env, rf: &ReplayFile) -> ReplayResult {
         Err(e) => return ReplayResult::Harness(format!("replay spec does not deserialise: {e}")),
     };
     warm_up::<E>(env, rf.global_seed);
+    for (k, ps) in rf.prefix.iter().enumerate() {
+        match serde_json::from_value::<E::Spec>(ps.clone()) {
+            Ok(ps) => {
+                let _ = E::execute(env, &ps);
+                println!("  | (history prefix run {k} executed)");
+            }
+            Err(e) => return ReplayResult::Harness(format!("prefix spec does not deserialise: {e}")),
+        }
+    }
     let (o, _) = E::execute(env, &spec);
     for l in &o.log {
         println!("  | {l}");
